@@ -976,7 +976,7 @@ def flat_oracle_u(ops, ans):
             n = int(a[1])
             if n + g > fs:
                 n = fs - g; good = False; eof = True
-            else:
+            elif n > 0:
                 good = True; eof = False
             n = max(0, n)
             want = bytes(data[g:g + n]) if g >= 0 else b''
@@ -1176,6 +1176,543 @@ def check_C01(res):
 C01_THEOREMS = ['Blf.Props.C01_object_roundtrip']
 
 
+def file_setup(res, prop, theorems):
+    import filechecks as fc
+    pipe = Pipe(res)
+    tr = pipe.regenerate()
+    if not tr['ok']:
+        finish_codec(res)
+    summary = tr['summary']
+    regres = pipe.checks()
+    res.checker_cmd = 'cd lean && lake build Blf.Props.%s && lake env lean <#print axioms>' % prop
+    pipe.lean(['Blf.Props.' + prop, 'blfdriver'], {'Blf.Props.' + prop: theorems})
+    exact = sorted(coverage_obligations(pipe, res, summary, regres))
+    fexe, cexe = fc.build_file_harness(pipe, res)
+    if not fexe or not cexe:
+        finish_codec(res)
+    return fc, pipe, summary, exact, fexe, cexe
+
+
+FLEVEL = {1: 0, 2: 1, 3: 1, 4: 1, 5: 1, 6: 2, 7: 3, 8: 3, 9: 3}
+
+
+def check_C04(res):
+    fc, pipe, summary, exact, fexe, cexe = file_setup(res, 'C04', C04_THEOREMS)
+    import blfparse
+    rng = random.Random(lib.seed() * 3571 + 4)
+    classes = [c for c in creatable(summary) if c in exact]
+    ncases = 250 if res.tier == 'quick' else 4000
+    cases = fc.gen_cases(summary, rng, res.tier, classes, classes, ncases)
+    # the same sequence under several configurations: payload must be identical
+    base = cases[:20]
+    for c in base:
+        for lv, cs in ((0, 7), (9, 4096), (5, 64)):
+            cases.append(fc.Case(lv, cs, not c.rp, c.objs, c.hdr))
+    out = fc.run_cases(pipe, res, cases, fexe, cexe)
+    if out is None:
+        finish_codec(res)
+    res.corr['programs'] = len(classes)
+    dis = 0
+    nfail = {}
+    for c, o in zip(cases, out):
+        res.corr['requests'] += 1
+        if o['file'] is None:
+            nfail.setdefault('write-' + o['wanswer'].split('outcome=')[-1].split()[0], (c, o['wanswer'][:200]))
+            continue
+        if o.get('mfile') is not None and o['mfile'] != o['file']:
+            dis += 1
+            if dis <= 10:
+                res.violation('model-vs-implementation', 'writeFile: model and implementation bytes differ', {'request': ('writefile %s %s' % (c.opts(), c.tail()))[:3000]})
+        try:
+            hdr, conts = blfparse.parse_file(o['file'])
+        except blfparse.FormatError as e:
+            nfail.setdefault('independent-decoder-rejects', (c, str(e)))
+            continue
+        main = conts[:-1] if c.rp else conts
+        if c.rp and (not conts or conts[-1]['uncompressedSize'] != 0):
+            nfail.setdefault('restore-point-container-missing', (c, 'last container holds %s bytes' % (conts[-1]['uncompressedSize'] if conts else None)))
+        for k in conts:
+            if k['method'] != (0 if c.level == 0 else 2):
+                nfail.setdefault('compression-method', (c, 'method %d at level %d' % (k['method'], c.level)))
+            if c.level > 0 and k['flevel'] != FLEVEL[c.level]:
+                nfail.setdefault('zlib-level-class', (c, 'FLEVEL %s at level %d' % (k['flevel'], c.level)))
+            if k['uncompressedSize'] > c.cs:
+                nfail.setdefault('container-too-large', (c, '%d > %d' % (k['uncompressedSize'], c.cs)))
+            if k['objectSize'] != 32 + len(k['stored']):
+                nfail.setdefault('container-object-size', (c, str(k['objectSize'])))
+            if k['reserved'] != (0, 0, 0):
+                nfail.setdefault('container-reserved-nonzero', (c, str(k['reserved'])))
+        payload = b''.join(k['payload'] for k in conts)
+        if payload != o['stream']:
+            nfail.setdefault('payload-differs-from-object-encodings', (c, '%d vs %d bytes' % (len(payload), len(o['stream']))))
+        if any(k['uncompressedSize'] != c.cs for k in main[:-1]):
+            nfail.setdefault('container-not-full', (c, str([k['uncompressedSize'] for k in main])[:100]))
+    res.corr['disagreements'] = dis
+    res.oblige('D:file-correspondence', dis == 0, '%d disagreements' % dis)
+    res.corr['distinct'] = len(set((c.opts(), c.tail()) for c in cases))
+    res.corr['rule'] = 'object sequences (incl. empty) of exactly-framed classes x levels x container sizes x trailer on/off, the first 20 sequences under three further configurations; files written by the real File are parsed by a strict stdlib-only Python decoder (spec/blfparse.py); non-trivial = distinct (configuration, sequence)'
+    res.corr['samples'] = [{'config': c.opts(), 'objects': [x[0] for x in c.objs][:5], 'containers': len(o['chunks'])} for c, o in list(zip(cases, out))[:4]]
+    for kind, (c, det) in nfail.items():
+        res.violation('container-format', '%s (%s)' % (kind, det[:200]), {'class': 'File', 'failure': kind, 'config': c.opts(), 'objects': c.tail()[:3000]})
+    finish_codec(res)
+
+
+def check_C05(res):
+    fc, pipe, summary, exact, fexe, cexe = file_setup(res, 'C05', C05_THEOREMS)
+    import blfparse
+    rng = random.Random(lib.seed() * 3581 + 5)
+    classes = [c for c in creatable(summary) if c in exact] + ['RestorePointContainer']
+    ncases = 250 if res.tier == 'quick' else 4000
+    cases = fc.gen_cases(summary, rng, res.tier, classes, [c for c in classes if c in exact], ncases)
+    for c in cases:
+        if rng.random() < 0.6:
+            c.hdr.update({2: struct_pack('<I', rng.randrange(2 ** 32)), 6: bytes([rng.randrange(256)]), 14: bytes(rng.randrange(256) for _ in range(64))})
+    out = fc.run_cases(pipe, res, cases, fexe, cexe)
+    if out is None:
+        finish_codec(res)
+    files = [o['file'] if o['file'] is not None else b'' for o in out]
+    # the 170 reference logs: reader counters against their headers
+    logs = sorted(glob_mod.glob(os.path.join(lib.SRC, 'tests', 'unittests', 'events_from_*', '*.blf')))
+    files += [open(f, 'rb').read() for f in logs]
+    r, mr = fc.read_files(res, files, fexe)
+    if r is None or mr is None:
+        finish_codec(res)
+    res.corr['programs'] = len(classes)
+    dis = 0
+    nfail = {}
+    for i, (f, a, ma) in enumerate(zip(files, r, mr)):
+        res.corr['requests'] += 1
+        if not fc.compare_read(summary, ma, a):
+            dis += 1
+            if dis <= 10:
+                res.violation('model-vs-implementation', 'readFile: model and implementation answers differ', {'file': f.hex()[:4000], 'model': ma[:1200], 'impl': a[:1200]})
+        c = cases[i] if i < len(cases) else None
+        name = 'written' if c else os.path.basename(logs[i - len(cases)])
+        try:
+            hdr, conts = blfparse.parse_file(f)
+        except blfparse.FormatError as e:
+            nfail.setdefault('independent-decoder-rejects', (c, name + ': ' + str(e)))
+            continue
+        d, st, objs = fc.split_read(a)
+        want_usize = hdr['statisticsSize'] + sum(32 + k['uncompressedSize'] for k in conts)
+        if c:
+            if hdr['fileSize'] != len(f):
+                nfail.setdefault('header-file-size', (c, '%d vs %d' % (hdr['fileSize'], len(f))))
+            if hdr['uncompressedFileSize'] != want_usize:
+                nfail.setdefault('header-uncompressed-size', (c, '%d vs %d' % (hdr['uncompressedFileSize'], want_usize)))
+            nobj = sum(1 for x in c.objs if x[0] != 'RestorePointContainer')
+            if hdr['objectCount'] != nobj:
+                nfail.setdefault('header-object-count', (c, '%d vs %d' % (hdr['objectCount'], nobj)))
+            if c.rp and hdr['restorePointsOffset'] != conts[-1]['offset']:
+                nfail.setdefault('header-restore-points-offset', (c, '%d vs %d' % (hdr['restorePointsOffset'], conts[-1]['offset'])))
+            if not c.rp and hdr['restorePointsOffset'] != int.from_bytes(c.hdr.get(13, b''), 'little'):
+                nfail.setdefault('header-restore-points-offset', (c, 'changed although disabled'))
+            for k, key in ((2, 'apiNumber'), (3, 'applicationId'), (4, 'compressionLevel'), (5, 'applicationMajor'), (6, 'applicationMinor'), (10, 'applicationBuild')):
+                if k in c.hdr and hdr[key] != int.from_bytes(c.hdr[k], 'little'):
+                    nfail.setdefault('header-caller-field', (c, key))
+            for k, key in ((11, 'measurementStartTime'), (12, 'lastObjectTime'), (14, 'reserved')):
+                if k in c.hdr and hdr[key] != c.hdr[k]:
+                    nfail.setdefault('header-caller-field', (c, key))
+        if d.get('outcome') != 'ended':
+            nfail.setdefault('reader-' + str(d.get('outcome')), (c, name))
+            continue
+        if int(d.get('usize', -1)) != hdr['uncompressedFileSize'] or int(d.get('usize', -1)) != want_usize:
+            nfail.setdefault('reader-uncompressed-size' + ('' if c else '-reference-log'), (c, '%s: reader %s header %d recomputed %d' % (name, d.get('usize'), hdr['uncompressedFileSize'], want_usize)))
+        if int(d.get('count', -1)) != hdr['objectCount']:
+            nfail.setdefault('reader-object-count' + ('' if c else '-reference-log'), (c, '%s: reader %s header %d' % (name, d.get('count'), hdr['objectCount'])))
+    res.corr['disagreements'] = dis
+    res.oblige('D:file-correspondence', dis == 0, '%d disagreements' % dis)
+    res.corr['distinct'] = len(set(files))
+    res.corr['reference_logs'] = len(logs)
+    res.corr['rule'] = 'written files as in C04 with caller-supplied header fields, plus the reference logs; header fields compared with an independent recomputation from the container walk (spec/blfparse.py) and with the reader counters after a complete read'
+    res.corr['samples'] = [{'config': c.opts(), 'objects': [x[0] for x in c.objs][:5]} for c in cases[:3]]
+    for kind, (c, det) in nfail.items():
+        res.violation('statistics', '%s (%s)' % (kind, str(det)[:200]), {'class': 'File', 'failure': kind, 'config': c.opts() if c else None, 'objects': c.tail()[:3000] if c else det})
+    finish_codec(res)
+
+
+def check_C08(res):
+    fc, pipe, summary, exact, fexe, cexe = file_setup(res, 'C08', C08_THEOREMS)
+    import blfparse
+    rng = random.Random(lib.seed() * 3593 + 8)
+    classes = [c for c in creatable(summary) if c in exact]
+    g = codecgen_mod().ObjGen(summary, rng)
+    cases = []
+    nfiles = 6 if res.tier == 'quick' else 60
+    for k in range(nfiles):
+        lv = [0, 1, 6, 9][k % 4]
+        cs = rng.choice([16, 40, 64, 100])
+        objs = []
+        for cn in rng.sample(classes, rng.choice([3, 4, 5])):
+            a = fc.api_object(g, summary, cn, rng)
+            # keep files small enough that every offset can be tried
+            a = {i: (v if len(v) <= 40 else v[:40]) for i, v in a.items()}
+            objs.append((cn, a))
+        if k % 3 == 0:
+            objs.insert(1, ('AppText', {next(i for i, f in enumerate(g.cls['AppText']['fields']) if f['name'] == 'text'): bytes(rng.randrange(32, 127) for _ in range(rng.choice([5, 37, 90])))}))
+        cases.append(fc.Case(lv, cs, k % 2 == 0, objs))
+    out = fc.run_cases(pipe, res, cases, fexe, cexe)
+    if out is None:
+        finish_codec(res)
+    files = []
+    meta = []
+    for ci, (c, o) in enumerate(zip(cases, out)):
+        if o['file'] is None:
+            res.violation('truncation', 'write failed: ' + o['wanswer'][:100], {'class': 'File', 'failure': 'write-failed', 'config': c.opts()})
+            continue
+        f = o['file']
+        init_hdr = fc_encode_initial_header()
+        variants = [('final-header', f), ('initial-header', init_hdr + f[144:])]
+        for vn, fv in variants:
+            step = 1 if (res.tier == 'thorough' or len(fv) <= 700) else 3
+            offs = sorted(set(list(range(0, len(fv) + 1, step)) + [len(fv)]))
+            for k in offs:
+                files.append(fv[:k])
+                meta.append((ci, vn, k, len(fv)))
+    r, mr = fc.read_files(res, files, fexe)
+    if r is None or mr is None:
+        finish_codec(res)
+    res.corr['programs'] = len(classes)
+    dis = 0
+    fails = {}
+    # expected: objects wholly contained in completely stored containers
+    full = {}
+    for (ci, vn, k, n), f, a, ma in zip(meta, files, r, mr):
+        res.corr['requests'] += 1
+        if not fc.compare_read(summary, ma, a):
+            dis += 1
+            if dis <= 10:
+                res.violation('model-vs-implementation', 'readFile of a truncated file: model and implementation differ', {'file': f.hex()[:4000], 'cut': k, 'model': ma[:800], 'impl': a[:800]})
+        d, st, objs = fc.split_read(a)
+        c, o = cases[ci], out[ci]
+        if k == n:
+            full[(ci, vn)] = objs
+        # independent expectation
+        hdr_ok = k >= 4 and f[:4] == b'LOGG' or (k < 4 and (f + b'LOGG'[k:])[:4] == b'LOGG')
+        exp_n = None
+        if d.get('outcome') == 'openexc':
+            exp_n = None
+        elif d.get('outcome') != 'ended':
+            fails.setdefault('read-' + str(d.get('outcome')), (ci, vn, k, a[:120]))
+            continue
+        else:
+            # containers completely contained in the prefix
+            pos = 144
+            payload = 0
+            whole = blfparse.parse_file(o['file'])[1]
+            for kc in whole:
+                end = kc['offset'] + kc['objectSize']
+                if end <= k:
+                    payload += kc['uncompressedSize']
+                else:
+                    break
+            acc = 0
+            exp_n = 0
+            for e in o['expected']:
+                if acc + len(e['bytes']) <= payload:
+                    acc += len(e['bytes']); exp_n += 1
+                else:
+                    break
+            if len(objs) != exp_n:
+                fails.setdefault('wrong-object-count', (ci, vn, k, 'delivered %d objects, %d are wholly contained in completely stored containers' % (len(objs), exp_n)))
+            for j, (cn, dump) in enumerate(objs[:exp_n]):
+                e = o['expected'][j]
+                if cn != e['class'] or fc.mask_indet(summary, cn, dump) != fc.mask_indet(summary, cn, e['dump']):
+                    fails.setdefault('modified-object', (ci, vn, k, 'object %d (%s) differs from the written one' % (j, cn)))
+                    break
+            if d.get('badeof'):
+                fails.setdefault('no-end-indication', (ci, vn, k, a[:80]))
+    # monotonicity
+    last = {}
+    for (ci, vn, k, n), a in zip(meta, r):
+        d, st, objs = fc.split_read(a)
+        if d.get('outcome') == 'ended':
+            key = (ci, vn)
+            if key in last and len(objs) < last[key][1]:
+                fails.setdefault('not-monotone', (ci, vn, k, 'prefix %d yields %d objects, prefix %d yielded %d' % (k, len(objs), last[key][0], last[key][1])))
+            last[key] = (k, len(objs))
+    res.corr['disagreements'] = dis
+    res.oblige('D:file-correspondence', dis == 0, '%d disagreements' % dis)
+    res.corr['distinct'] = len(set(files))
+    res.corr['rule'] = 'files written with levels {0,1,6,9} and container sizes 16..100 so that objects span containers, final and initial (default statistics) header; every truncation offset (quick: every offset of files up to 700 bytes, every third otherwise); expectation computed independently from the container walk and the object encodings'
+    res.corr['samples'] = [{'file_len': m[3], 'cut': m[2], 'header': m[1], 'answer': a[:80]} for m, a in list(zip(meta, r))[200:203]]
+    for kind, (ci, vn, k, det) in fails.items():
+        c = cases[ci]
+        res.violation('truncation', '%s at cut %d of a %s file (%s)' % (kind, k, vn, det[:160]), {'class': 'File', 'failure': kind, 'config': c.opts(), 'objects': c.tail()[:3000], 'cut': k, 'header': vn})
+    finish_codec(res)
+
+
+def fc_encode_initial_header():
+    # the header as File::open(out) first writes it: default statistics
+    import struct
+    return struct.pack('<IIIBBBBQQII', 0x47474F4C, 144, 4080200, 0, 1, 0, 0, 0, 0, 0, 0) + bytes(16) + bytes(16) + struct.pack('<Q', 0) + bytes(64)
+
+
+def codecgen_mod():
+    import codecgen
+    return codecgen
+
+
+def wrap_stream(stream, cs):
+    """level-0 file around a hand-assembled uncompressed stream (independent of the library)"""
+    import struct
+    body = b''
+    chunks = []
+    while len(stream) >= cs:
+        chunks.append(stream[:cs]); stream = stream[cs:]
+    chunks.append(stream)
+    for ch in chunks:
+        osz = 32 + len(ch)
+        body += struct.pack('<IHHIIHHIII', 0x4A424F4C, 16, 1, osz, 10, 0, 0, 0, len(ch), 0) + ch + bytes(osz % 4)
+    hdr = struct.pack('<IIIBBBBQQII', 0x47474F4C, 144, 4080200, 0, 0, 0, 0, 144 + len(body), 0, 0, 0) + bytes(16) + bytes(16) + struct.pack('<Q', 0) + bytes(64)
+    return hdr + body
+
+
+def check_C09(res):
+    fc, pipe, summary, exact, fexe, cexe = file_setup(res, 'C09', C09_THEOREMS)
+    rng = random.Random(lib.seed() * 3607 + 9)
+    classes = [c for c in creatable(summary) if c in exact]
+    g = codecgen_mod().ObjGen(summary, rng)
+    # a pool of real objects with their encodings
+    pool = []
+    reqs = []
+    for cn in rng.sample(classes, 24):
+        a = fc.api_object(g, summary, cn, rng)
+        a = {i: (v if len(v) <= 24 else v[:24]) for i, v in a.items()}
+        pool.append((cn, a))
+        reqs.append('!enc ' + fc.objline(cn, a))
+    enc, rc, err = lib.psession(cexe, reqs)
+    objs = []
+    for (cn, a), e in zip(pool, enc):
+        d = parse_kv(e)
+        if d.get('halt') == 'none' and b'LOBJ' not in bytes.fromhex(d['out'])[4:]:
+            objs.append((cn, bytes.fromhex(d['out']), ' '.join(d.get('obj', []))))
+    import itertools
+    maxlen = 5 if res.tier == 'quick' else 7
+    alpha = [b'L', b'O', b'B', b'J', b'x']
+    fillers = [b'']
+    for n in range(1, maxlen + 1):
+        for t in itertools.product(alpha, repeat=n):
+            f = b''.join(t)
+            if b'LOBJ' not in f:
+                fillers.append(f)
+    for _ in range(200 if res.tier == 'quick' else 5000):
+        n = rng.randrange(10, 200)
+        f = bytes(rng.choice(b'LOBJxLOB\x00\xff') for _ in range(n))
+        if b'LOBJ' not in f:
+            fillers.append(f)
+    unknown_codes = [0, 26, 27, 28, 52, 53, 108, 116, 117, 132, 133, 255, 256, 65535, 2 ** 31, 2 ** 32 - 1] + [rng.randrange(132, 2 ** 32) for _ in range(8)]
+    def unknown_block():
+        code = rng.choice(unknown_codes)
+        size = rng.choice([16, 17, 20, 31, 32, 48, 100, 1000, 4096]) if res.tier == 'thorough' else rng.choice([16, 17, 20, 32, 48, 100])
+        import struct
+        body = bytes(rng.randrange(256) for _ in range(size - 16))
+        return struct.pack('<IHHII', 0x4A424F4C, 16, 1, size, code) + body
+    files = []
+    expect = []
+    per = 40
+    items = list(fillers)
+    rng.shuffle(items)
+    i = 0
+    while i < len(items):
+        stream = b''
+        exp = []
+        for f in items[i:i + per]:
+            stream += f
+            if rng.random() < 0.25:
+                ub = unknown_block()
+                # an unknown block must not swallow a partial signature of what follows: it is skipped by its size
+                stream += ub
+            o = rng.choice(objs)
+            stream += o[1]
+            exp.append((o[0], o[2]))
+        if rng.random() < 0.5:
+            stream += rng.choice(fillers)
+        cs = rng.choice([13, 64, 1000, 131072])
+        files.append(wrap_stream(stream, cs))
+        expect.append(exp)
+        i += per
+    r, mr = fc.read_files(res, files, fexe)
+    if r is None or mr is None:
+        finish_codec(res)
+    res.corr['programs'] = len(classes)
+    dis = 0
+    fails = {}
+    for f, a, ma, exp in zip(files, r, mr, expect):
+        res.corr['requests'] += 1
+        if not fc.compare_read(summary, ma, a):
+            dis += 1
+            if dis <= 10:
+                res.violation('model-vs-implementation', 'readFile of a stream with filler: model and implementation differ', {'file': f.hex()[:6000], 'model': ma[:800], 'impl': a[:800]})
+        d, st, objs_r = fc.split_read(a)
+        if d.get('outcome') != 'ended':
+            fails.setdefault('read-' + str(d.get('outcome')), (f, a[:100]))
+            continue
+        got = [(cn, fc.mask_indet(summary, cn, dump)) for cn, dump in objs_r]
+        want = [(cn, fc.mask_indet(summary, cn, dump)) for cn, dump in exp]
+        if got != want:
+            k = next((j for j in range(min(len(got), len(want))) if got[j] != want[j]), min(len(got), len(want)))
+            fails.setdefault('neighbour-lost-or-modified', (f, 'delivered %d objects, expected %d; first difference at %d' % (len(got), len(want), k)))
+    res.corr['disagreements'] = dis
+    res.corr['fillers'] = len(fillers)
+    res.oblige('D:file-correspondence', dis == 0, '%d disagreements' % dis)
+    res.corr['distinct'] = len(set(files))
+    res.corr['rule'] = 'every filler over {L,O,B,J,x} up to length %d not containing the signature, random longer fillers, unknown-type blocks (reserved, zero and >131 codes, sizes 16..) in front of real objects, %d (filler, object) pairs per hand-assembled level-0 file with container sizes {13,64,1000,131072}' % (maxlen, per)
+    res.corr['samples'] = [{'file_len': len(f), 'expected_objects': len(e), 'answer': a[:60]} for f, e, a in list(zip(files, expect, r))[:3]]
+    for kind, (f, det) in fails.items():
+        res.violation('filler', '%s (%s)' % (kind, det), {'class': 'File', 'failure': kind, 'file': f.hex()[:8000]})
+    finish_codec(res)
+
+
+def mutate_file(rng, f, k):
+    b = bytearray(f)
+    n = len(b)
+    if n == 0:
+        return bytes(b)
+    if k == 'byte':
+        p = rng.randrange(n); b[p] = rng.choice([0, 1, 0x7f, 0x80, 0xff])
+    elif k == 'field16':
+        p = rng.randrange(0, max(1, n - 2)) // 2 * 2; b[p:p + 2] = rng.choice([0, 1, 0x7fff, 0x8000, 0xffff]).to_bytes(2, 'little')
+    elif k == 'field32':
+        p = rng.randrange(0, max(1, n - 4)) // 4 * 4; b[p:p + 4] = rng.choice([0, 1, 0x7fffffff, 0x80000000, 0xffffffff]).to_bytes(4, 'little')
+    elif k == 'trunc':
+        b = b[:rng.randrange(n)]
+    elif k == 'dup':
+        p = rng.randrange(n); q = min(n, p + rng.randrange(1, 64)); b[p:p] = b[p:q]
+    elif k == 'del':
+        p = rng.randrange(n); q = min(n, p + rng.randrange(1, 64)); del b[p:q]
+    elif k == 'header':
+        # structure-aware: container / object headers and length fields
+        offs = [i for i in range(len(b) - 16) if b[i:i + 4] == b'LOBJ']
+        if offs:
+            p = rng.choice(offs) + rng.choice([4, 6, 8, 12, 16, 24, 32, 36, 40, 44])
+            w = rng.choice([2, 4])
+            if p + w <= len(b):
+                b[p:p + w] = rng.choice([0, 1, 2, 15, 16, 31, 32, 2 ** (8 * w - 1) - 1, 2 ** (8 * w - 1), 2 ** (8 * w) - 1]).to_bytes(w, 'little')
+    return bytes(b[:len(b)][:2_000_000])
+
+
+def check_C10(res):
+    fc, pipe, summary, exact, fexe, cexe = file_setup(res, 'C10', C10_THEOREMS)
+    rng = random.Random(lib.seed() * 3613 + 10)
+    classes = creatable(summary)
+    cases = fc.gen_cases(summary, rng, 'quick', classes, [c for c in classes if c in exact], 24 if res.tier == 'quick' else 120)
+    cases = [c for c in cases if c.objs]
+    for c in cases:
+        c.level = rng.choice([0, 0, 1, 6])     # uncompressed containers expose the object stream to the mutations
+        c.cs = rng.choice([64, 4096, 131072])
+    out = fc.run_cases(pipe, res, cases, fexe, cexe, want_model=False)
+    if out is None:
+        finish_codec(res)
+    seeds = [o['file'] for o in out if o['file'] is not None]
+    logs = sorted(glob_mod.glob(os.path.join(lib.SRC, 'tests', 'unittests', 'events_from_*', '*.blf')))
+    seeds += [open(f, 'rb').read() for f in (logs if res.tier == 'thorough' else rng.sample(logs, 30))]
+    files = []
+    kinds = []
+    per = 14 if res.tier == 'quick' else 150
+    for f in seeds:
+        for _ in range(per):
+            k = rng.choice(['byte', 'field16', 'field32', 'trunc', 'dup', 'del', 'header', 'header', 'header'])
+            files.append(mutate_file(rng, f, k)); kinds.append(k)
+    os.environ['VERIF_CAP'] = str(256 * 1024 * 1024)
+    r, mr = fc.read_files(res, files, fexe)
+    if r is None or mr is None:
+        finish_codec(res)
+    res.corr['programs'] = len(classes)
+    dis = 0
+    fails = {}
+    outcomes = {}
+    for f, k, a, ma in zip(files, kinds, r, mr):
+        res.corr['requests'] += 1
+        d, st, objs = fc.split_read(a)
+        oc = d.get('outcome', a.split()[1] if len(a.split()) > 1 else a)
+        outcomes[oc] = outcomes.get(oc, 0) + 1
+        if not fc.compare_read(summary, ma, a):
+            # a memory error or hang the model does not predict is itself a disagreement
+            dis += 1
+            if dis <= 15:
+                res.violation('model-vs-implementation', 'readFile of a mutated file: model %s, implementation %s' % (ma[:40], a[:40]), {'file': f.hex()[:8000], 'mutation': k, 'model': ma[:600], 'impl': a[:600]})
+        if oc not in ('ended', 'openexc'):
+            md = fc.split_read(ma)[0].get('outcome')
+            sig = classify_hostile(f, a, ma)
+            if sig not in fails or len(f) < len(fails[sig][0]):
+                fails[sig] = (f, k, a[:120], ma[:120])
+    res.corr['disagreements'] = dis
+    res.corr['outcomes'] = outcomes
+    res.oblige('D:file-correspondence', dis == 0, '%d disagreements' % dis)
+    res.corr['distinct'] = len(set(files))
+    res.corr['rule'] = 'valid files (library-written and reference logs) mutated by boundary byte substitution, aligned 16/32-bit overwrites, truncation, block duplication/deletion and structure-aware edits of container/object headers and length fields; read through the real threaded File under ASan+UBSan with a 256 MiB allocation cap and a watchdog; every outcome other than ended/open-exception is a failure'
+    res.corr['samples'] = [{'mutation': k, 'file_len': len(f), 'answer': a[:60]} for f, k, a in list(zip(files, kinds, r))[:4]]
+    for sig, (f, k, a, ma) in fails.items():
+        res.violation('hostile-input', '%s: implementation %s (model %s)' % (sig, a[:60], ma[:60]), {'class': 'File', 'failure': sig, 'mutation': k, 'file': f.hex()[:12000]})
+    finish_codec(res)
+
+
+def classify_hostile(f, a, ma):
+    """failure signature of a hostile-input failure: outcome + the first structural anomaly of the file"""
+    import struct
+    oc = 'hang' if 'outcome=hang' in a else ('crash' if 'crash' in a else a.split()[1] if len(a.split()) > 1 else 'other')
+    why = 'other'
+    # walk the containers
+    pos = 144
+    stream = b''
+    try:
+        while pos + 32 <= len(f) and f[pos:pos + 4] == b'LOBJ':
+            osz, typ = struct.unpack_from('<II', f, pos + 8)
+            meth = struct.unpack_from('<H', f, pos + 16)[0]
+            usz = struct.unpack_from('<I', f, pos + 24)[0]
+            if typ != 10:
+                break
+            if osz < 32:
+                why = 'container-size-below-header'; raise StopIteration
+            if meth == 0 and usz > osz - 32:
+                why = 'uncompressed-container-declares-more-than-stored'; raise StopIteration
+            if meth == 2 and usz > 256 * 1024 * 1024:
+                why = 'container-declares-absurd-uncompressed-size'; raise StopIteration
+            if osz - 32 > 256 * 1024 * 1024:
+                why = 'container-declares-absurd-size'; raise StopIteration
+            data = f[pos + 32:pos + osz]
+            if meth == 0:
+                stream += data[:usz]
+            elif meth == 2:
+                import zlib
+                try:
+                    stream += zlib.decompress(data)
+                except Exception:
+                    break
+            pos += osz + osz % 4
+        # walk the objects
+        p = 0
+        while True:
+            p = stream.find(b'LOBJ', p)
+            if p < 0 or p + 16 > len(stream):
+                break
+            osz, typ = struct.unpack_from('<II', stream, p + 8)
+            if osz == 0:
+                why = 'object-size-zero'; break
+            if osz < 16:
+                why = 'object-size-below-base-header'; break
+            if osz > len(stream) - p + 64:
+                why = 'object-size-beyond-stream'
+            p += max(osz, 1)
+    except StopIteration:
+        pass
+    return oc + ':' + why
+
+
+def struct_pack(fmt, v):
+    import struct
+    return struct.pack(fmt, v)
+
+
+import glob as glob_mod
+C04_THEOREMS = []
+C05_THEOREMS = []
+C08_THEOREMS = []
+C09_THEOREMS = []
+C10_THEOREMS = []
+
+
 def finish_codec(res):
     def kfilter(v, kf):
         pl = v.get('payload', {})
@@ -1187,7 +1724,7 @@ def finish_codec(res):
     sys.exit(finish(res, kfilter))
 
 
-PROPS = {'C03': check_C03, 'C02': check_C02, 'C17': check_C17, 'C14': check_C14, 'C15': check_C15, 'C16': check_C16, 'C01': check_C01}
+PROPS = {'C03': check_C03, 'C02': check_C02, 'C17': check_C17, 'C14': check_C14, 'C15': check_C15, 'C16': check_C16, 'C01': check_C01, 'C04': check_C04, 'C05': check_C05, 'C08': check_C08, 'C09': check_C09, 'C10': check_C10}
 
 
 def main():
